@@ -453,7 +453,9 @@ impl Layout {
                     let prev_is_line_comment = prev.is_some_and(|p| p.kind == PieceKind::LineComment);
                     if let Some(p) = prev {
                         let mut w = p.text.to_ascii_lowercase();
-                        if w == "for" && pieces.len() >= 2 && pieces[pieces.len() - 2].text.eq_ignore_ascii_case("helper") {
+                        // (the previous *token*: comments between `helper` and `for` do not count)
+                        let before = pieces[..pieces.len() - 1].iter().rev().find(|q| matches!(q.kind, PieceKind::Tok(_) | PieceKind::Extra));
+                        if w == "for" && before.is_some_and(|q| q.text.eq_ignore_ascii_case("helper")) {
                             w = "helper for".to_string();
                         }
                         odd_comment_after.push(w);
